@@ -22,7 +22,7 @@ import numpy as np
 from . import core
 
 SHAPES = {  # family -> {cells: shape}
-    "cart1": {6: (6,), 8: (8,)}, "cart2": {9: (3, 3), 12: (3, 4)}, "cart3": {8: (2, 2, 2), 12: (2, 2, 3)},
+    "cart1": {6: (6,), 8: (8,)}, "cart2": {9: (3, 3), 12: (3, 4)}, "cart2a": {9: (3, 3), 12: (3, 4)}, "cart3": {8: (2, 2, 2), 12: (2, 2, 3)},
     "cyl": {9: (3, 3), 12: (3, 4)}, "cylp": {9: (3, 3), 12: (3, 4)}, "polar": {4: (4,), 6: (6,)}, "spherical": {4: (4,), 6: (6,)},
 }
 AFF = [(1.0, 0.0), (2.0, -1.0), (0.5, 3.0), (8.0, 0.25)]
@@ -33,7 +33,8 @@ def make_grid(fam, shape, idx):
 
     if fam.startswith("cart"):
         per = [bool((idx >> a) & 1) for a in range(len(shape))]
-        return CartesianGrid([[0, n] for n in shape], list(shape), periodic=per)
+        spac = [1.0, 0.1] if fam == "cart2a" else [1.0] * len(shape)     # cart2a: strongly anisotropic cells
+        return CartesianGrid([[0, n * s] for n, s in zip(shape, spac)], list(shape), periodic=per)
     if fam in ("cyl", "cylp"):
         return CylindricalSymGrid(shape[0], [0, shape[1]], list(shape), periodic_z=(fam == "cylp"))
     if fam == "polar":
@@ -187,8 +188,8 @@ def classify(case):
     return None
 
 
-CFGS = {"q_loc": ("locate", {"cart1": 6, "cart2": 9, "cart3": 8, "cyl": 9, "cylp": 9, "polar": 4, "spherical": 4}),
-        "t_loc": ("locate", {"cart1": 8, "cart2": 12, "cart3": 12, "cyl": 12, "cylp": 12, "polar": 6, "spherical": 6}),
+CFGS = {"q_loc": ("locate", {"cart2a": 9, "cart1": 6, "cart2": 9, "cart3": 8, "cyl": 9, "cylp": 9, "polar": 4, "spherical": 4}),
+        "t_loc": ("locate", {"cart2a": 12, "cart1": 8, "cart2": 12, "cart3": 12, "cyl": 12, "cylp": 12, "polar": 6, "spherical": 6}),
         "q_ren": ("render", {}), "q_trk": ("track", {}), "t_trk": ("track", {})}
 
 
